@@ -61,8 +61,8 @@ func (r *DHCP) Name() string {
 }
 
 func (r *DHCP) Visit(f func(name string, addrs []string)) {
-	r.mu.RLock()
-	defer r.mu.RUnlock()
+	r.mu.Lock()
+	defer r.mu.Unlock()
 	r.refreshLocked()
 	for name, addrs := range r.names {
 		f(name, addrs)
@@ -70,22 +70,22 @@ func (r *DHCP) Visit(f func(name string, addrs []string)) {
 }
 
 func (r *DHCP) LookupMAC(mac string) []string {
-	r.mu.RLock()
-	defer r.mu.RUnlock()
+	r.mu.Lock()
+	defer r.mu.Unlock()
 	r.refreshLocked()
 	return r.macs[mac]
 }
 
 func (r *DHCP) LookupAddr(addr string) []string {
-	r.mu.RLock()
-	defer r.mu.RUnlock()
+	r.mu.Lock()
+	defer r.mu.Unlock()
 	r.refreshLocked()
 	return r.addrs[addr]
 }
 
 func (r *DHCP) LookupHost(name string) []string {
-	r.mu.RLock()
-	defer r.mu.RUnlock()
+	r.mu.Lock()
+	defer r.mu.Unlock()
 	r.refreshLocked()
 	return r.names[prepareHostLookup(name)]
 }
